@@ -113,3 +113,50 @@ func verifHarness_C16_UploadVersusWriter() {
 	rt.AssertUnlocked(&f.lock, "the file lock is released")
 	rt.Assert(f.frozenDescriptorsCount == 0 && f.referenceCount == 1, "uploads release their frozen readers")
 }
+
+// Two uploads and one writer: a writer that was woken because the first frozen
+// reader went away must wait again if the file has been frozen anew.
+func verifHarness_C16_TwoUploadsVersusWriter() {
+	rt.MustCover("up2:writer-blocked", "up2:both-uploaded")
+	ctx := context.Background()
+	p := &verifC16_pool{}
+	fa := NewPoolBackedFileAllocator(p, verifC16_logger{}, func(AttributesMask, *Attributes) {}, NoNamedAttributesFactory)
+	leaf, _ := fa.NewFile(pool.ZeroHoleSource, false, 0, ShareMaskWrite)
+	f := leaf.(*fileBackedFile)
+	pf := p.file
+	f.VirtualWrite(ctx, []byte{7, 7, 7}, 0)
+	cas := &verifC16_cas{f: f, pf: pf, stored: map[string][]byte{}}
+	df := digest.MustNewFunction("", remoteexecution.DigestFunction_SHA256)
+	delay := make(chan struct{})
+	close(delay) // the bounded wait for writers has expired: uploads proceed next to the open writer
+	var ds [2]digest.Digest
+	var es [2]error
+	for k := 0; k < 2; k++ {
+		k := k
+		rt.Go(func() {
+			up := &ApplyUploadFile{Context: ctx, ContentAddressableStorage: cas, DigestFunction: df, WritableFileUploadDelay: delay}
+			f.VirtualApply(up)
+			ds[k], es[k] = up.Digest, up.Err
+		})
+	}
+	rt.Go(func() {
+		blocked := f.frozenDescriptorsCount > 0
+		f.VirtualWrite(ctx, []byte{9}, 0)
+		if blocked {
+			rt.Cover("up2:writer-blocked")
+		}
+		f.VirtualClose(ShareMaskWrite)
+	})
+	rt.WaitAll()
+	for k := 0; k < 2; k++ {
+		rt.Assert(es[k] == nil, "the upload succeeds")
+		data, ok := cas.stored[ds[k].GetKey(digest.KeyWithoutInstance)]
+		rt.Assert(ok, "the reported digest names a blob the CAS received")
+		g := df.NewGenerator(int64(len(data)))
+		g.Write(data)
+		rt.Assert(g.Sum() == ds[k], "the reported digest equals the digest of the bytes stored in the CAS")
+	}
+	rt.Cover("up2:both-uploaded")
+	rt.AssertUnlocked(&f.lock, "the file lock is released")
+	rt.Assert(f.frozenDescriptorsCount == 0 && f.referenceCount == 1, "uploads release their frozen readers")
+}
